@@ -17,11 +17,12 @@ pub mod c14;
 pub mod c15;
 pub mod c16;
 pub mod c17;
+pub mod c18;
 pub mod c19;
 pub mod c20;
 
 pub fn all() -> Vec<&'static CheckDef> {
-    vec![&c01::DEF, &c01::DEF_C02, &c05::DEF, &c06::DEF, &c12::DEF, &c11::DEF, &c10::DEF, &c19::DEF, &c07::DEF, &c08::DEF, &c13::DEF, &c14::DEF, &c16::DEF, &c17::DEF, &c15::DEF, &c20::DEF, &c04::DEF, &c03::DEF, &c09::DEF]
+    vec![&c01::DEF, &c01::DEF_C02, &c05::DEF, &c06::DEF, &c12::DEF, &c11::DEF, &c10::DEF, &c19::DEF, &c07::DEF, &c08::DEF, &c13::DEF, &c14::DEF, &c16::DEF, &c17::DEF, &c15::DEF, &c20::DEF, &c04::DEF, &c03::DEF, &c09::DEF, &c18::DEF]
 }
 
 pub fn find(id: &str) -> Option<&'static CheckDef> {
